@@ -270,6 +270,9 @@ Section Hierarchy.
   Definition ontology_conflict (m : mm) (anc : amap) (c : cls) : bool :=
     let ancs := anc_of anc (c_name c) in
     existsb (fun p => mem_text p (flat_map (props_of m) ancs)) (c_props c)
+    (* the same property name declared by two different ancestors (the ontology lists an
+       ancestor once per path: the same ancestor seen again is no conflict) *)
+    || negb (nodupb (flat_map (props_of m) (dedup text_eqb ancs)))
     || existsb (fun q => mem_text q (flat_map (methods_of m) ancs)) (c_methods c)
     || match c_ctor c with
        | Some _ => false
